@@ -306,3 +306,300 @@ Proof.
 Qed.
 Lemma nr_row_add_offset M d s c0 : nr (row_add_offset M d s c0) = nr M. Proof. reflexivity. Qed.
 Lemma nc_row_add_offset M d s c0 : nc (row_add_offset M d s c0) = nc M. Proof. reflexivity. Qed.
+
+Lemma swapn_comm a b j : swapn a b j = swapn b a j.
+Proof. unfold swapn. bsolve. Qed.
+
+(** * folds of swaps *)
+Lemma fold_row_swaps p ts X :
+  wf X -> (forall t, In t ts -> t < nr X /\ p t < nr X) ->
+  let X' := fold_left (fun M t => row_swap M t (p t)) ts X in
+  wf X' /\ nr X' = nr X /\ nc X' = nc X /\ forall i j, get X' i j = get X (pi p ts i) j.
+Proof.
+  cbv zeta. revert X; induction ts as [|t ts IH]; intros X HX Hin; cbn [fold_left pi].
+  - (split; [|split; [|split]]); auto.
+  - destruct (Hin t) as [Ht Hp]; [now left|].
+    destruct (IH (row_swap X t (p t))) as (Hw & Hr & Hc & Hg).
+    + now apply wf_row_swap.
+    + intros s Hs. rewrite nr_row_swap. apply Hin. now right.
+    + (split; [|split; [|split]]); auto. intros i j. rewrite Hg.
+      apply get_row_swap; rewrite wf_len; auto.
+Qed.
+
+Lemma fold_col_swaps q ts X :
+  wf X -> (forall t, In t ts -> t < nc X /\ q t < nc X) ->
+  let X' := fold_left (fun M t => col_swap M t (q t)) ts X in
+  wf X' /\ nr X' = nr X /\ nc X' = nc X /\ forall i j, get X' i j = get X i (pi q ts j).
+Proof.
+  cbv zeta. revert X; induction ts as [|t ts IH]; intros X HX Hin; cbn [fold_left pi].
+  - (split; [|split; [|split]]); auto.
+  - destruct (Hin t) as [Ht Hp]; [now left|].
+    destruct (IH (col_swap X t (q t))) as (Hw & Hr & Hc & Hg).
+    + now apply wf_col_swap.
+    + intros s Hs. rewrite nc_col_swap. apply Hin. now right.
+    + rewrite nr_col_swap in Hr. rewrite nc_col_swap in Hc.
+      (split; [|split; [|split]]); auto. intros i j. rewrite Hg. now apply get_col_swap.
+Qed.
+
+(** a fold of steps each of which acts on row i as the column swap (t, q t) when [cond t] holds *)
+Lemma get_fold_swaps (step : mat -> nat -> mat) q (cond : nat -> bool) (Inv : mat -> Prop) i ts X :
+  (forall M t, Inv M -> Inv (step M t)) ->
+  (forall M t j, Inv M -> get (step M t) i j = if cond t then get M i (swapn t (q t) j) else get M i j) ->
+  Inv X ->
+  forall j, get (fold_left step ts X) i j = get X i (pi q (filter cond ts) j).
+Proof.
+  intros Hinv Hstep. revert X; induction ts as [|t ts IH]; intros X HX j; cbn [fold_left filter pi]; [reflexivity|].
+  rewrite IH by auto. rewrite Hstep by assumption.
+  destruct (cond t); reflexivity.
+Qed.
+
+Lemma fold_inv {A B} (step : A -> B -> A) (Inv : A -> Prop) ts X :
+  (forall M t, In t ts -> Inv M -> Inv (step M t)) -> Inv X -> Inv (fold_left step ts X).
+Proof.
+  revert X; induction ts as [|t ts IH]; intros X H HX; cbn [fold_left]; [assumption|].
+  apply IH; [intros; apply H; auto; now right|]. apply H; [now left|assumption].
+Qed.
+
+Lemma fold_left_ext_in {A B} (f g : A -> B -> A) ts X :
+  (forall t M, In t ts -> f M t = g M t) -> fold_left f ts X = fold_left g ts X.
+Proof.
+  revert X; induction ts as [|t ts IH]; intros X H; cbn [fold_left]; [reflexivity|].
+  rewrite H by now left. apply IH. intros; apply H; now right.
+Qed.
+
+(** apply_p_left / apply_p_right_trans at entry level, for in-range swap sequences *)
+Lemma pval_nth P i : i < length P -> pval P i = nth i P 0.
+Proof. intros. unfold pval. now apply nth_indep. Qed.
+
+Lemma get_apply_p_left A P : wf A -> length P = nr A -> lapack P (nr A) ->
+  let X := apply_p_left A P in
+  wf X /\ nr X = nr A /\ nc X = nc A /\
+  forall i j, get X i j = get A (pi (fun t => nth t P 0) (seq 0 (nr A)) i) j.
+Proof.
+  cbv zeta. intros HA HP Hl. unfold apply_p_left. rewrite HP, Nat.min_id.
+  rewrite (fold_left_ext_in (fun M i => row_swap M i (pval P i)) (fun M i => row_swap M i (nth i P 0))).
+  - apply (fold_row_swaps (fun t => nth t P 0)); auto. intros t Ht. apply in_seq in Ht. specialize (Hl t). lia.
+  - intros t M Ht. apply in_seq in Ht. rewrite pval_nth by lia. reflexivity.
+Qed.
+
+Lemma get_apply_p_right_trans A Q : wf A -> length Q = nc A -> lapack Q (nc A) ->
+  let X := apply_p_right_trans A Q in
+  wf X /\ nr X = nr A /\ nc X = nc A /\
+  forall i j, get X i j = get A i (pi (fun t => nth t Q 0) (seq 0 (nc A)) j).
+Proof.
+  cbv zeta. intros HA HQ Hl. unfold apply_p_right_trans. rewrite HQ, Nat.min_id.
+  rewrite (fold_left_ext_in (fun M i => col_swap M i (pval Q i)) (fun M i => col_swap M i (nth i Q 0))).
+  - apply (fold_col_swaps (fun t => nth t Q 0)); auto. intros t Ht. apply in_seq in Ht. specialize (Hl t). lia.
+  - intros t M Ht. apply in_seq in Ht. rewrite pval_nth by lia. reflexivity.
+Qed.
+
+(** * lowbit and the pivot search *)
+Lemma ctz_pos_spec p :
+  N.testbit (Npos p) (N.of_nat (ctz_pos p)) = true /\
+  forall k, k < ctz_pos p -> N.testbit (Npos p) (N.of_nat k) = false.
+Proof.
+  induction p as [p IH|p IH|]; cbn [ctz_pos].
+  - split; [reflexivity|intros; lia].
+  - destruct IH as [IH1 IH2]. split.
+    + rewrite Nat2N.inj_succ. change (N.pos p~0) with (N.double (N.pos p)).
+      now rewrite N.double_bits_succ.
+    + intros [|k] Hk; [reflexivity|].
+      rewrite Nat2N.inj_succ. change (N.pos p~0) with (N.double (N.pos p)).
+      rewrite N.double_bits_succ. apply IH2. lia.
+  - split; [reflexivity|intros; lia].
+Qed.
+
+Lemma lowbit_none r : lowbit r = None -> r = 0%N.
+Proof. destruct r; [reflexivity|discriminate]. Qed.
+
+Lemma lowbit_some r l : lowbit r = Some l ->
+  N.testbit r (N.of_nat l) = true /\ forall k, k < l -> N.testbit r (N.of_nat k) = false.
+Proof.
+  destruct r as [|p]; [discriminate|]. cbn [lowbit]. intros H. injection H as <-. apply ctz_pos_spec.
+Qed.
+
+Definition fp_inv (g : nat -> nat -> bool) (r0 c0 i : nat) (best : option (nat * nat)) : Prop :=
+  match best with
+  | None => forall i' j, r0 <= i' < i -> c0 <= j -> g i' j = false
+  | Some (ib, jb) => r0 <= ib < i /\ c0 <= jb /\ g ib jb = true /\
+       (forall i' j, r0 <= i' < i -> c0 <= j < jb -> g i' j = false) /\
+       (forall i', r0 <= i' < ib -> g i' jb = false)
+  end.
+
+Lemma find_pivot_aux_inv g rs : forall i r0 c0 best,
+  (forall k j, k < length rs -> g (i + k) j = N.testbit (nth k rs 0%N) (N.of_nat j)) ->
+  fp_inv g r0 c0 i best -> fp_inv g r0 c0 (i + length rs) (find_pivot_aux rs i r0 c0 best).
+Proof.
+  induction rs as [|r t IH]; intros i r0 c0 best Hg Hinv; cbn [find_pivot_aux length].
+  - now rewrite Nat.add_0_r.
+  - replace (i + S (length t)) with (S i + length t) by lia. apply IH.
+    + intros k j Hk. replace (S i + k) with (i + S k) by lia. rewrite Hg by (cbn; lia). reflexivity.
+    + assert (Hrow : forall j, g i j = N.testbit r (N.of_nat j)).
+      { intros j. specialize (Hg 0 j). rewrite Nat.add_0_r in Hg. apply Hg. cbn; lia. }
+      destruct (Nat.ltb_spec i r0) as [Hlt|Hge].
+      { (* row above the region *)
+        destruct best as [[ib jb]|]; cbn [fp_inv] in *.
+        - destruct Hinv as (H1 & H2 & H3 & H4 & H5). repeat split; try lia; auto.
+          intros i' j Hi' Hj. apply H4; lia.
+        - intros i' j Hi' Hj. apply Hinv; lia. }
+      destruct (lowbit (N.shiftr r (N.of_nat c0))) as [l|] eqn:El.
+      * apply lowbit_some in El. destruct El as [El1 El2].
+        rewrite testbit_shiftr_nat in El1.
+        assert (Hz : forall j, c0 <= j < c0 + l -> g i j = false).
+        { intros j Hj. rewrite Hrow. specialize (El2 (j - c0) ltac:(lia)).
+          rewrite testbit_shiftr_nat in El2. now replace (j - c0 + c0) with j in El2 by lia. }
+        rewrite (Nat.add_comm l c0) in El1.
+        destruct best as [[ib jb]|]; cbn [fp_inv] in *.
+        -- destruct Hinv as (H1 & H2 & H3 & H4 & H5).
+           destruct (Nat.ltb_spec (c0 + l) jb) as [Hlt|Hge'].
+           ++ cbn [fp_inv]. repeat split; try lia.
+              ** now rewrite Hrow.
+              ** intros i' j Hi' Hj. destruct (Nat.eq_dec i' i) as [->|Hne]; [apply Hz; lia|apply H4; lia].
+              ** intros i' Hi'. apply H4; lia.
+           ++ cbn [fp_inv]. repeat split; try lia; auto.
+              intros i' j Hi' Hj. destruct (Nat.eq_dec i' i) as [->|Hne]; [apply Hz; lia|apply H4; lia].
+        -- repeat split; try lia.
+           ++ now rewrite Hrow.
+           ++ intros i' j Hi' Hj. destruct (Nat.eq_dec i' i) as [->|Hne]; [apply Hz; lia|apply Hinv; lia].
+           ++ intros i' Hi'. apply Hinv; lia.
+      * apply lowbit_none in El.
+        assert (Hz : forall j, c0 <= j -> g i j = false).
+        { intros j Hj. rewrite Hrow. replace j with (j - c0 + c0) by lia.
+          rewrite <- testbit_shiftr_nat, El. apply N.bits_0. }
+        destruct best as [[ib jb]|]; cbn [fp_inv] in *.
+        -- destruct Hinv as (H1 & H2 & H3 & H4 & H5). repeat split; try lia; auto.
+           intros i' j Hi' Hj. destruct (Nat.eq_dec i' i) as [->|Hne]; [apply Hz; lia|apply H4; lia].
+        -- intros i' j Hi' Hj. destruct (Nat.eq_dec i' i) as [->|Hne]; [apply Hz; lia|apply Hinv; lia].
+Qed.
+
+Lemma find_pivot_none A r0 c0 : wf A -> find_pivot A r0 c0 = None ->
+  forall i j, r0 <= i -> c0 <= j -> get A i j = false.
+Proof.
+  intros HA H i j Hi Hj. pose proof (wf_len A HA) as Hl.
+  destruct (Nat.lt_ge_cases i (nr A)) as [Hlt|Hge]; [|now apply get_out_row].
+  pose proof (find_pivot_aux_inv (get A) (rows A) 0 r0 c0 None) as Hinv.
+  unfold find_pivot in H. rewrite H in Hinv. cbn [fp_inv] in Hinv.
+  apply Hinv; try lia; [reflexivity|intros; lia].
+Qed.
+
+Lemma find_pivot_some A r0 c0 ib jb : wf A -> find_pivot A r0 c0 = Some (ib, jb) ->
+  r0 <= ib < nr A /\ c0 <= jb < nc A /\ get A ib jb = true /\
+  (forall i j, r0 <= i -> c0 <= j < jb -> get A i j = false) /\
+  (forall i, r0 <= i < ib -> get A i jb = false).
+Proof.
+  intros HA H. pose proof (wf_len A HA) as Hl.
+  pose proof (find_pivot_aux_inv (get A) (rows A) 0 r0 c0 None) as Hinv.
+  unfold find_pivot in H. rewrite H in Hinv. cbn [fp_inv] in Hinv.
+  destruct Hinv as (H1 & H2 & H3 & H4 & H5); [reflexivity|intros; lia|].
+  destruct (get_in A ib jb HA H3) as [Hi Hj].
+  repeat split; try lia; auto.
+  intros i j Hi' Hj'. destruct (Nat.lt_ge_cases i (nr A)); [apply H4; lia|now apply get_out_row].
+Qed.
+
+(** * fill_id *)
+Lemma fill_id_length r l : length (fill_id r l) = length l.
+Proof. apply mapi_from_length. Qed.
+Lemma nth_fill_id r l i : i < length l -> nth i (fill_id r l) 0 = if r <=? i then i else nth i l 0.
+Proof. intros Hi. unfold fill_id. rewrite (nth_mapi_from _ _ _ _ 0) by assumption. reflexivity. Qed.
+
+(** * the triangular factors at entry level *)
+Lemma get_unit_lower_rect m r L i t :
+  get (unit_lower_rect m r L) i t =
+  (i <? m) && (if i <? r then (i =? t) || ((t <? i) && get L i t) else (t <? r) && get L i t).
+Proof.
+  unfold get at 1, row, unit_lower_rect. cbn [rows].
+  destruct (Nat.ltb_spec i m) as [Hi|Hi]; cbn [andb].
+  - rewrite (nth_map_default _ _ _ 0) by now rewrite seq_length. rewrite seq_nth by assumption. cbn [Nat.add].
+    destruct (Nat.ltb_spec i r).
+    + rewrite N.lor_spec, N.land_spec, testbit_pow2_nat, testbit_ones_nat. unfold get. now rewrite andb_comm.
+    + rewrite N.land_spec, testbit_ones_nat. unfold get. apply andb_comm.
+  - rewrite nth_overflow; [apply N.bits_0|]. now rewrite map_length, seq_length.
+Qed.
+
+Lemma wf_unit_lower_rect m r L : wf (unit_lower_rect m r L).
+Proof.
+  apply wf_mk; [now rewrite map_length, seq_length|]. intros i Hi.
+  rewrite (nth_map_default _ _ _ 0) by now rewrite seq_length. rewrite seq_nth by assumption. cbn [Nat.add nc].
+  destruct (Nat.ltb_spec i r).
+  - apply bounded_lor; [now apply bounded_pow2|]. apply bounded_land_r. apply (bounded_mono i); [lia|apply bounded_ones].
+  - apply bounded_land_r, bounded_ones.
+Qed.
+
+Lemma get_upper_rect r n U t j :
+  get (upper_rect r n U) t j = (t <? r) && ((t <=? j) && (j <? n) && get U t j).
+Proof.
+  unfold get at 1, row, upper_rect. cbn [rows].
+  destruct (Nat.ltb_spec t r) as [Ht|Ht]; cbn [andb].
+  - rewrite (nth_map_default _ _ _ 0) by now rewrite seq_length. rewrite seq_nth by assumption. cbn [Nat.add].
+    rewrite N.land_spec, N.ldiff_spec, !testbit_ones_nat. unfold get.
+    destruct (N.testbit (row U t) (N.of_nat j)); bsolve.
+  - rewrite nth_overflow; [apply N.bits_0|]. now rewrite map_length, seq_length.
+Qed.
+
+Lemma wf_upper_rect r n U : wf (upper_rect r n U).
+Proof.
+  apply wf_mk; [now rewrite map_length, seq_length|]. intros i Hi.
+  rewrite (nth_map_default _ _ _ 0) by now rewrite seq_length. cbn [nc].
+  apply bounded_land_r, bounded_ones.
+Qed.
+
+(** * reflection of the boolean observers *)
+Lemma list_eqb_spec a b : list_eqb a b = true <-> a = b.
+Proof.
+  revert b; induction a as [|x a IH]; intros [|y b]; cbn [list_eqb]; try (split; [discriminate|congruence]).
+  - split; reflexivity.
+  - rewrite andb_true_iff, N.eqb_eq, IH. split; [intros [-> ->]; reflexivity|intros H; injection H; auto].
+Qed.
+
+Lemma mequal_spec A B : mequal A B = true <-> A = B.
+Proof.
+  unfold mequal. rewrite !andb_true_iff, !Nat.eqb_eq, list_eqb_spec.
+  destruct A, B; cbn [nr nc rows]. split; [intros [[-> ->] ->]; reflexivity|intros H; injection H; auto].
+Qed.
+
+Lemma lapackb_spec P n : lapackb P n = true <-> lapack P n.
+Proof.
+  unfold lapackb, lapack. rewrite forallb_forall. split.
+  - intros H i Hi. specialize (H i). rewrite in_seq, andb_true_iff, Nat.leb_le, Nat.ltb_lt in H. apply H. lia.
+  - intros H i Hi. apply in_seq in Hi. rewrite andb_true_iff, Nat.leb_le, Nat.ltb_lt. apply H. lia.
+Qed.
+
+Fixpoint nat_list_eqb (a b : list nat) : bool :=
+  match a, b with
+  | [], [] => true
+  | x :: a', y :: b' => (x =? y) && nat_list_eqb a' b'
+  | _, _ => false
+  end.
+Lemma nat_list_eqb_spec a b : nat_list_eqb a b = true <-> a = b.
+Proof.
+  revert b; induction a as [|x a IH]; intros [|y b]; cbn [nat_list_eqb]; try (split; [discriminate|congruence]).
+  - split; reflexivity.
+  - rewrite andb_true_iff, Nat.eqb_eq, IH. split; [intros [-> ->]; reflexivity|intros H; injection H; auto].
+Qed.
+
+(** * strictly sorted lists are determined by their elements *)
+Lemma sorted_ext (l1 l2 : list nat) :
+  StronglySorted lt l1 -> StronglySorted lt l2 -> (forall x, In x l1 <-> In x l2) -> l1 = l2.
+Proof.
+  revert l2; induction l1 as [|x l1 IH]; intros [|y l2] H1 H2 H.
+  - reflexivity.
+  - exfalso. apply (proj2 (H y)). now left.
+  - exfalso. apply (proj1 (H x)). now left.
+  - apply StronglySorted_inv in H1 as [H1 F1]. apply StronglySorted_inv in H2 as [H2 F2].
+    rewrite Forall_forall in F1, F2.
+    assert (x = y) as ->.
+    { destruct (proj1 (H x) ltac:(now left)) as [E|Hx]; [congruence|].
+      destruct (proj2 (H y) ltac:(now left)) as [E|Hy]; [congruence|].
+      specialize (F1 _ Hy). specialize (F2 _ Hx). lia. }
+    f_equal. apply IH; auto. intros z. split; intros Hz.
+    + destruct (proj1 (H z) ltac:(now right)) as [E|Hz']; [|assumption]. specialize (F1 _ Hz). lia.
+    + destruct (proj2 (H z) ltac:(now right)) as [E|Hz']; [|assumption]. specialize (F2 _ Hz). lia.
+Qed.
+
+Lemma is_crp_unique A l1 l2 : is_crp A l1 -> is_crp A l2 -> l1 = l2.
+Proof.
+  intros (S1 & B1 & M1) (S2 & B2 & M2). apply sorted_ext; auto.
+  intros x. split; intros Hx.
+  - apply M2; [now apply B1|]. apply M1; [now apply B1|assumption].
+  - apply M1; [now apply B2|]. apply M2; [now apply B2|assumption].
+Qed.
